@@ -65,7 +65,7 @@ func (*baseExecutor) GetScanSlice(columnNames []string, tableMeta *types.TableMe
 		case "VARCHAR", "NVARCHAR", "VARCHAR2", "CHAR", "TEXT", "JSON", "TINYTEXT":
 			var scanVal sql.NullString
 			scanSlice = append(scanSlice, &scanVal)
-		case "BIT", "INT", "LONGBLOB", "SMALLINT", "TINYINT", "BIGINT", "MEDIUMINT":
+		case "BIT", "INT", "SMALLINT", "TINYINT", "BIGINT", "MEDIUMINT":
 			if columnMeta.IsNullable == 0 {
 				scanVal := int64(0)
 				scanSlice = append(scanSlice, &scanVal)
